@@ -25,8 +25,10 @@ inductive Res
 deriving DecidableEq, Repr
 
 /-- kernel path resolution from the directory `cur` over the remaining components `comps`.  `followLast`: follow a
-    symbolic link in the last component too.  Every step costs one unit of fuel (`ELOOP` when it runs out). -/
-def walk (fs : FS) (followLast : Bool) : Nat → P → List Comp → Res
+    symbolic link in the last component too.  `links` is the number of symbolic links that may still be followed
+    (`MAXSYMLINKS` = 40 per resolution: the 41st gives `ELOOP`); `fuel` only makes the recursion structural (one unit
+    per step; `walkFuel` is more than 40 links of `PATH_MAX` bytes can use). -/
+def walk (fs : FS) (followLast : Bool) (links : Nat) : Nat → P → List Comp → Res
   | 0, _, _ => .err .eloop
   | fuel+1, cur, comps =>
     match fs.get cur with
@@ -34,25 +36,29 @@ def walk (fs : FS) (followLast : Bool) : Nat → P → List Comp → Res
       (match comps with
        | [] => .found cur (.dir m)
        | c :: rest =>
-         if c = [] ∨ c = [46] then walk fs followLast fuel cur rest
-         else if c = [46, 46] then walk fs followLast fuel cur.dropLast rest
+         if c = [] ∨ c = [46] then walk fs followLast links fuel cur rest
+         else if c = [46, 46] then walk fs followLast links fuel cur.dropLast rest
          else
            match fs.get (cur ++ [c]) with
            | none => if rest = [] then .missing (cur ++ [c]) else .err .enoent
            | some (.symlink t) =>
              if rest = [] ∧ followLast = false then .found (cur ++ [c]) (.symlink t)
              else if t = [] then .err .enoent
-             else walk fs followLast fuel (if t.head? = some 47 then [] else cur) (splitSlash t ++ rest)
+             else if links = 0 then .err .eloop
+             else walk fs followLast (links - 1) fuel (if t.head? = some 47 then [] else cur) (splitSlash t ++ rest)
            | some (.file i) => if rest = [] then .found (cur ++ [c]) (.file i) else .err .enotdir
-           | some (.dir _) => walk fs followLast fuel (cur ++ [c]) rest)
+           | some (.dir _) => walk fs followLast links fuel (cur ++ [c]) rest)
     | some _ => .err .enotdir
     | none => .err .enoent
 
-/-- enough for the path itself and a generous number of link expansions -/
-def walkFuel (p : P) : Nat := p.length + 256
+/-- the path itself and 40 expansions of at most `PATH_MAX/2` components each -/
+def walkFuel (p : P) : Nat := p.length + 100000
 
-def lstatR (fs : FS) (p : P) : Res := walk fs false (walkFuel p) [] p
-def statR (fs : FS) (p : P) : Res := walk fs true (walkFuel p) [] p
+/-- `MAXSYMLINKS` -/
+def maxLinks : Nat := 40
+
+def lstatR (fs : FS) (p : P) : Res := walk fs false maxLinks (walkFuel p) [] p
+def statR (fs : FS) (p : P) : Res := walk fs true maxLinks (walkFuel p) [] p
 
 /-- `mkdir(2)`: does not follow a link in the last component (`EEXIST`) -/
 def mkdirR (fs : FS) (p : P) (mode : Nat) : Option FS :=
